@@ -1,4 +1,686 @@
 //! zero_copy_connection part of C03 (sender / receiver over process_local storage).
-use vcore::Ctx;
+//!
+//! One sender thread and one receiver thread work on a connection that the main thread creates
+//! before and drops after the scheduled run (registered threads never touch the storage mutex).
+//! A case is a *script*: a reference interleaving of sender and receiver operations. Each entry
+//! may carry a wait flag ("do not start before the operations of the other thread that precede
+//! me in the script are complete"); waits are harness-side `block_until`s, always satisfiable
+//! (the script order itself satisfies them), and let few preemptions reach deep states.
+//!
+//! Sender contract used (what `iceoryx2::port::details::sender` does): before every `try_send`
+//! the completion queue of that channel is drained (`reclaim` until `None`); offsets in flight
+//! are distinct; `acquire_used_offsets` only after the receiver is gone and no send follows.
+//! Receiver contract: releases only what it borrowed, once.
+use iceoryx2_cal::named_concept::*;
+use iceoryx2_cal::shm_allocator::{PointerOffset, SegmentId};
+use iceoryx2_cal::zero_copy_connection::*;
+use serde::{Deserialize, Serialize};
+use std::sync::Mutex;
+use std::sync::atomic::{AtomicBool, AtomicU32, Ordering};
+use vcore::sched::{self, OTHER, Schedule};
+use vcore::{Ctx, Failure, Obs, ensure};
 
-pub fn conn_parts(_ctx: &mut Ctx) {}
+type Conn = iceoryx2_cal::zero_copy_connection::process_local::Connection;
+type Snd = <Conn as ZeroCopyConnection>::Sender;
+type Rcv = <Conn as ZeroCopyConnection>::Receiver;
+
+const SAMPLE: usize = 8;
+const NSAMPLES: usize = 64;
+
+#[derive(Clone, Copy, Debug, Serialize, Deserialize, Hash, PartialEq, Eq)]
+pub enum COp {
+    /// drain the completion queue of the channel, then try_send a fresh offset
+    Send(u8),
+    /// one reclaim
+    Reclaim(u8),
+    Recv(u8),
+    /// release the k-th oldest borrowed offset of the channel (clamped), nothing if none is held
+    Release(u8, u8),
+}
+
+#[derive(Clone, Copy, Debug, Serialize, Deserialize, Hash, PartialEq, Eq)]
+pub struct Entry {
+    /// 0 sender thread, 1 receiver thread
+    pub t: u8,
+    pub op: COp,
+    /// start only after all entries of the other thread that precede this one are complete
+    pub wait: bool,
+}
+
+#[derive(Clone, Debug, Serialize, Deserialize, Hash)]
+pub struct CCase {
+    pub buffer: u8,
+    pub borrow: u8,
+    pub overflow: bool,
+    pub channels: u8,
+    pub segments: u8,
+    pub script: Vec<Entry>,
+    /// final phase: reclaim everything that was released before `acquire_used_offsets`
+    pub final_reclaim: bool,
+    pub sched: Schedule,
+}
+
+#[derive(Clone, Debug, PartialEq)]
+enum Ev {
+    SendBegin(u64, u8),
+    /// value, channel, 0 = Ok(None), 1 = Ok(Some(evicted)), 2 = ReceiveBufferFull, 3 = other error
+    SendEnd(u64, u8, u8, Option<u64>, String),
+    ReclaimBegin(u8),
+    ReclaimEnd(u8, Result<Option<u64>, String>),
+    RecvBegin(u8),
+    /// Ok(Some) | Ok(None) | Err(exceeds max borrow)
+    RecvEnd(u8, Result<Option<u64>, ()>, usize),
+    RelBegin(u64, u8),
+    RelEnd(u64, u8, bool),
+}
+
+struct SyncRef<T>(*const T);
+unsafe impl<T> Send for SyncRef<T> {}
+unsafe impl<T> Sync for SyncRef<T> {}
+impl<T> SyncRef<T> {
+    fn get(&self) -> &T {
+        unsafe { &*self.0 }
+    }
+}
+
+struct Sh {
+    log: Mutex<Vec<Ev>>,
+    done: [AtomicU32; 2],
+    finished: [AtomicBool; 2],
+}
+
+fn val_of(p: PointerOffset) -> u64 {
+    // value = sample index * segments + segment id is what was sent; recover it from the offset
+    ((p.offset() / SAMPLE) as u64) << 8 | p.segment_id().value() as u64
+}
+
+fn ptr_of(v: u64, segments: u8) -> PointerOffset {
+    PointerOffset::from_offset_and_segment_id(v as usize * SAMPLE, SegmentId::new((v % segments as u64) as u8))
+}
+
+fn key_of(v: u64, segments: u8) -> u64 {
+    v << 8 | (v % segments as u64)
+}
+
+fn wait_for(sh: &Sh, other: usize, n: u32) {
+    if n == 0 {
+        return;
+    }
+    sched::block_until(&|| sh.done[other].load(Ordering::SeqCst) >= n || sh.finished[other].load(Ordering::SeqCst));
+}
+
+fn sender_thread(s: &Snd, sh: &Sh, prog: &[(COp, u32)], segments: u8) {
+    let mut next = 1u64;
+    for (op, w) in prog {
+        wait_for(sh, 1, *w);
+        match *op {
+            COp::Send(ch) => {
+                let id = ChannelId::new(ch as usize);
+                loop {
+                    sh.log.lock().unwrap().push(Ev::ReclaimBegin(ch));
+                    sched::op_begin();
+                    let r = s.reclaim(id);
+                    sched::op_end();
+                    let r = r.map(|o| o.map(val_of)).map_err(|e| format!("{e:?}"));
+                    let stop = !matches!(r, Ok(Some(_)));
+                    sh.log.lock().unwrap().push(Ev::ReclaimEnd(ch, r));
+                    if stop {
+                        break;
+                    }
+                }
+                let v = next;
+                next += 1;
+                sh.log.lock().unwrap().push(Ev::SendBegin(key_of(v, segments), ch));
+                sched::op_begin();
+                let r = s.try_send(ptr_of(v, segments), SAMPLE, id);
+                sched::op_end();
+                let e = match r {
+                    Ok(None) => Ev::SendEnd(key_of(v, segments), ch, 0, None, String::new()),
+                    Ok(Some(x)) => Ev::SendEnd(key_of(v, segments), ch, 1, Some(val_of(x)), String::new()),
+                    Err(ZeroCopySendError::ReceiveBufferFull) => Ev::SendEnd(key_of(v, segments), ch, 2, None, String::new()),
+                    Err(e) => Ev::SendEnd(key_of(v, segments), ch, 3, None, format!("{e:?}")),
+                };
+                sh.log.lock().unwrap().push(e);
+            }
+            COp::Reclaim(ch) => {
+                sh.log.lock().unwrap().push(Ev::ReclaimBegin(ch));
+                sched::op_begin();
+                let r = s.reclaim(ChannelId::new(ch as usize));
+                sched::op_end();
+                sh.log.lock().unwrap().push(Ev::ReclaimEnd(ch, r.map(|o| o.map(val_of)).map_err(|e| format!("{e:?}"))));
+            }
+            _ => {}
+        }
+        sh.done[0].fetch_add(1, Ordering::SeqCst);
+    }
+    sh.finished[0].store(true, Ordering::SeqCst);
+}
+
+fn receiver_thread(r: &Rcv, sh: &Sh, prog: &[(COp, u32)], held: &Mutex<Vec<Vec<PointerOffset>>>) {
+    for (op, w) in prog {
+        wait_for(sh, 0, *w);
+        match *op {
+            COp::Recv(ch) => {
+                let id = ChannelId::new(ch as usize);
+                sh.log.lock().unwrap().push(Ev::RecvBegin(ch));
+                sched::op_begin();
+                let x = r.receive(id);
+                sched::op_end();
+                let n_held = held.lock().unwrap()[ch as usize].len();
+                let e = match x {
+                    Ok(Some(p)) => {
+                        held.lock().unwrap()[ch as usize].push(p);
+                        Ok(Some(val_of(p)))
+                    }
+                    Ok(None) => Ok(None),
+                    Err(ZeroCopyReceiveError::ReceiveWouldExceedMaxBorrowValue) => Err(()),
+                };
+                sh.log.lock().unwrap().push(Ev::RecvEnd(ch, e, n_held));
+            }
+            COp::Release(ch, k) => {
+                let p = {
+                    let mut h = held.lock().unwrap();
+                    let l = &mut h[ch as usize];
+                    if l.is_empty() { None } else { Some(l.remove((k as usize).min(l.len() - 1))) }
+                };
+                if let Some(p) = p {
+                    sh.log.lock().unwrap().push(Ev::RelBegin(val_of(p), ch));
+                    sched::op_begin();
+                    let x = r.release(p, ChannelId::new(ch as usize));
+                    sched::op_end();
+                    sh.log.lock().unwrap().push(Ev::RelEnd(val_of(p), ch, x.is_ok()));
+                }
+            }
+            _ => {}
+        }
+        sh.done[1].fetch_add(1, Ordering::SeqCst);
+    }
+    sh.finished[1].store(true, Ordering::SeqCst);
+}
+
+/// derives the two per-thread programs (operation, number of operations of the other thread
+/// that must be complete before it starts)
+fn programs(c: &CCase) -> [Vec<(COp, u32)>; 2] {
+    let mut out = [vec![], vec![]];
+    let mut cnt = [0u32; 2];
+    for e in &c.script {
+        let t = (e.t & 1) as usize;
+        let legal = match e.op {
+            COp::Send(ch) | COp::Reclaim(ch) => t == 0 && ch < c.channels,
+            COp::Recv(ch) | COp::Release(ch, _) => t == 1 && ch < c.channels,
+        };
+        if !legal {
+            continue;
+        }
+        out[t].push((e.op, if e.wait { cnt[1 - t] } else { 0 }));
+        cnt[t] += 1;
+    }
+    out
+}
+
+fn conn_name() -> FileName {
+    FileName::new(format!("c03conn{}", std::process::id()).as_bytes()).unwrap()
+}
+
+pub fn run_ccase(c: &CCase, obs: &mut Obs) -> Result<sched::RunInfo, Failure> {
+    let name = conn_name();
+    let cfg = <Conn as NamedConceptMgmt>::Configuration::default();
+    let mk = || {
+        <Conn as ZeroCopyConnection>::Builder::new(&name)
+            .config(&cfg)
+            .buffer_size(c.buffer as usize)
+            .receiver_max_borrowed_chunks_per_channel(c.borrow as usize)
+            .enable_safe_overflow(c.overflow)
+            .number_of_chunks_per_segment(NSAMPLES)
+            .max_supported_shared_memory_segments(c.segments)
+            .number_of_channels(c.channels as usize)
+    };
+    let sender = mk().create_sender().map_err(|e| Failure::new("conn.setup", format!("create_sender: {e:?}")))?;
+    let receiver = mk().create_receiver().map_err(|e| Failure::new("conn.setup", format!("create_receiver: {e:?}")))?;
+    let progs = programs(c);
+    let sh = Sh { log: Mutex::new(vec![]), done: [AtomicU32::new(0), AtomicU32::new(0)], finished: [AtomicBool::new(false), AtomicBool::new(false)] };
+    let held: Mutex<Vec<Vec<PointerOffset>>> = Mutex::new(vec![vec![]; c.channels as usize]);
+    let info = {
+        let (sr, rr) = (SyncRef(&sender as *const Snd), SyncRef(&receiver as *const Rcv));
+        let (shr, heldr, p0, p1, segs) = (&sh, &held, &progs[0], &progs[1], c.segments);
+        sched::run(
+            vec![
+                Box::new(move || sender_thread(sr.get(), shr, p0, segs)),
+                Box::new(move || receiver_thread(rr.get(), shr, p1, heldr)),
+            ],
+            &c.sched,
+        )
+    };
+    ensure!(info.panics.is_empty(), "conn.panic", "thread panicked: {:?}", info.panics);
+    ensure!(!info.deadlock, "conn.deadlock", "deadlock (blocked {:?})", info.blocked);
+    if info.budget_exhausted {
+        obs.discarded = true;
+        return Ok(info);
+    }
+    let mut log = sh.log.into_inner().unwrap();
+    let mut held = held.into_inner().unwrap();
+    let concurrent_len = log.len();
+    // ---- final phase (single-threaded): drain the submission queues -----------------------
+    let mut remaining: Vec<Vec<u64>> = vec![vec![]; c.channels as usize];
+    for ch in 0..c.channels {
+        let id = ChannelId::new(ch as usize);
+        let mut guard = 0;
+        loop {
+            guard += 1;
+            ensure!(guard < 200, "conn.capacity", "the final drain of channel {ch} does not terminate");
+            log.push(Ev::RecvBegin(ch));
+            let n_held = held[ch as usize].len();
+            match receiver.receive(id) {
+                Ok(Some(p)) => {
+                    log.push(Ev::RecvEnd(ch, Ok(Some(val_of(p))), n_held));
+                    remaining[ch as usize].push(val_of(p));
+                    held[ch as usize].push(p);
+                }
+                Ok(None) => {
+                    log.push(Ev::RecvEnd(ch, Ok(None), n_held));
+                    break;
+                }
+                Err(ZeroCopyReceiveError::ReceiveWouldExceedMaxBorrowValue) => {
+                    ensure!(held[ch as usize].len() == c.borrow as usize, "conn.borrow_limit", "receive refused with {} of {} borrowed", held[ch as usize].len(), c.borrow);
+                    let p = held[ch as usize].remove(0);
+                    log.push(Ev::RelBegin(val_of(p), ch));
+                    let ok = receiver.release(p, id).is_ok();
+                    log.push(Ev::RelEnd(val_of(p), ch, ok));
+                    // the sender keeps its side of the contract in the final phase too
+                    loop {
+                        log.push(Ev::ReclaimBegin(ch));
+                        let r = sender.reclaim(id).map(|o| o.map(val_of)).map_err(|e| format!("{e:?}"));
+                        let stop = !matches!(r, Ok(Some(_)));
+                        log.push(Ev::ReclaimEnd(ch, r));
+                        if stop {
+                            break;
+                        }
+                    }
+                }
+            }
+        }
+        ensure!(remaining[ch as usize].len() <= c.buffer as usize, "conn.capacity", "channel {ch}: {} offsets drained from a buffer of {}", remaining[ch as usize].len(), c.buffer);
+    }
+    if c.final_reclaim {
+        for ch in 0..c.channels {
+            loop {
+                log.push(Ev::ReclaimBegin(ch));
+                let r = sender.reclaim(ChannelId::new(ch as usize)).map(|o| o.map(val_of)).map_err(|e| format!("{e:?}"));
+                let stop = !matches!(r, Ok(Some(_)));
+                log.push(Ev::ReclaimEnd(ch, r));
+                if stop {
+                    break;
+                }
+            }
+        }
+    }
+    // the receiver goes away with whatever it still borrows; then the sender takes stock
+    drop(receiver);
+    let mut acquired: Vec<u64> = vec![];
+    unsafe { sender.acquire_used_offsets(|p| acquired.push(val_of(p))) };
+    let mut second: Vec<u64> = vec![];
+    unsafe { sender.acquire_used_offsets(|p| second.push(val_of(p))) };
+    drop(sender);
+    ensure!(second.is_empty(), "conn.used_offsets", "a second acquire_used_offsets yields {second:?} again");
+    ensure!(matches!(Conn::does_exist_cfg(&name, &cfg), Ok(false)), "conn.setup", "connection still exists after both ports were dropped");
+
+    // ---- oracle ---------------------------------------------------------------------------
+    let nch = c.channels as usize;
+    let mut accepted: Vec<Vec<u64>> = vec![vec![]; nch];
+    let mut evicted: Vec<Vec<u64>> = vec![vec![]; nch];
+    let mut received: Vec<Vec<u64>> = vec![vec![]; nch];
+    let mut released: Vec<Vec<u64>> = vec![vec![]; nch];
+    let mut reclaimed: Vec<Vec<u64>> = vec![vec![]; nch];
+    let mut send_begun: Vec<u64> = vec![];
+    let mut rel_begun: Vec<u64> = vec![];
+    let mut boundary = false;
+    let detail = |l: &Vec<Ev>| format!("log {:?}", l);
+    // interval bookkeeping for full / empty admissibility (sequentially consistent runs only)
+    let mut acc_done = vec![0i64; nch];
+    let mut removed_done = vec![0i64; nch];
+    let mut recv_at_send_begin = vec![0i64; nch];
+    let mut acc_at_recv_begin = vec![0i64; nch];
+    for (i, e) in log.iter().enumerate() {
+        match e {
+            Ev::SendBegin(v, ch) => {
+                send_begun.push(*v);
+                recv_at_send_begin[*ch as usize] = removed_done[*ch as usize];
+            }
+            Ev::SendEnd(v, ch, kind, ev, err) => {
+                let ch = *ch as usize;
+                match kind {
+                    0 | 1 => {
+                        accepted[ch].push(*v);
+                        acc_done[ch] += 1;
+                        if let Some(x) = ev {
+                            ensure!(c.overflow, "conn.evicts_oldest", "non-overflowing connection evicted {x}: {}", detail(&log));
+                            evicted[ch].push(*x);
+                            removed_done[ch] += 1;
+                            boundary = true;
+                        }
+                    }
+                    2 => {
+                        boundary = true;
+                        ensure!(!c.overflow, "conn.spurious_full", "overflowing connection refused a send: {}", detail(&log));
+                        if info.stale_reads == 0 {
+                            let max_fill = acc_done[ch] - recv_at_send_begin[ch];
+                            ensure!(max_fill >= c.buffer as i64, "conn.spurious_full", "try_send of {v} refused although at most {max_fill} of {} slots could be in use: {}", c.buffer, detail(&log));
+                        }
+                    }
+                    _ => return Err(Failure::new("conn.send_error", format!("try_send of {v} failed with {err}: {}", detail(&log)))),
+                }
+            }
+            Ev::ReclaimBegin(_) => {}
+            Ev::ReclaimEnd(ch, r) => match r {
+                Ok(Some(v)) => {
+                    ensure!(rel_begun.contains(v), "conn.reclaim", "reclaim yields {v} which was not released: {}", detail(&log));
+                    ensure!(!reclaimed[*ch as usize].contains(v), "conn.reclaim", "reclaim yields {v} twice: {}", detail(&log));
+                    reclaimed[*ch as usize].push(*v);
+                }
+                Ok(None) => {}
+                Err(e) => return Err(Failure::new("conn.reclaim", format!("reclaim failed with {e}: {}", detail(&log)))),
+            },
+            Ev::RecvBegin(ch) => acc_at_recv_begin[*ch as usize] = acc_done[*ch as usize],
+            Ev::RecvEnd(ch, r, n_held) => {
+                let chi = *ch as usize;
+                match r {
+                    Ok(Some(v)) => {
+                        ensure!(send_begun.contains(v), "conn.conservation", "received {v} which was never sent: {}", detail(&log));
+                        ensure!(!received.iter().any(|l| l.contains(v)), "conn.conservation", "received {v} twice: {}", detail(&log));
+                        ensure!(*n_held < c.borrow as usize, "conn.borrow_limit", "receive handed out a sample with {n_held} of {} already borrowed", c.borrow);
+                        received[chi].push(*v);
+                        removed_done[chi] += 1;
+                    }
+                    Ok(None) => {
+                        boundary = true;
+                        if info.stale_reads == 0 && i < concurrent_len {
+                            let min_fill = acc_at_recv_begin[chi] - removed_done[chi];
+                            ensure!(min_fill <= 0, "conn.spurious_empty", "receive returned None although at least {min_fill} offsets were in the buffer throughout: {}", detail(&log));
+                        }
+                    }
+                    Err(()) => {
+                        boundary = true;
+                        ensure!(*n_held == c.borrow as usize, "conn.borrow_limit", "receive refused with {n_held} of {} borrowed", c.borrow);
+                    }
+                }
+            }
+            Ev::RelBegin(v, _) => rel_begun.push(*v),
+            Ev::RelEnd(v, ch, ok) => {
+                ensure!(*ok, "conn.release_full", "release of {v} failed (retrieve buffer full) with buffer {} max borrow {}: {}", c.buffer, c.borrow, detail(&log));
+                released[*ch as usize].push(*v);
+            }
+        }
+    }
+    let mut expect_used: Vec<u64> = vec![];
+    for ch in 0..nch {
+        let d = || format!("channel {ch}: accepted {:?} received {:?} remaining {:?} evicted {:?} released {:?} reclaimed {:?} acquired {:?}", accepted[ch], received[ch], remaining[ch], evicted[ch], released[ch], reclaimed[ch], acquired);
+        // conservation: everything accepted was received (during the run or in the final drain -
+        // the drain is logged too, so `received` holds both) or handed back as evicted
+        let mut all: Vec<u64> = received[ch].iter().chain(evicted[ch].iter()).cloned().collect();
+        all.sort();
+        let mut acc = accepted[ch].clone();
+        acc.sort();
+        ensure!(all == acc, "conn.conservation", "offsets lost, duplicated or invented: {}", d());
+        // FIFO per channel (values are numbered in send order)
+        ensure!(received[ch].windows(2).all(|w| w[0] < w[1]), "conn.fifo", "receive order differs from send order: {}", d());
+        ensure!(evicted[ch].windows(2).all(|w| w[0] < w[1]), "conn.fifo", "evictions out of order: {}", d());
+        // an evicted offset is older than everything received after it was evicted: since both
+        // sequences are increasing it suffices that no offset older than an evicted one is
+        // received *after* the eviction - checked through the global order below
+        // completion queue is a FIFO as well and hands back each released offset once
+        ensure!(reclaimed[ch].len() <= released[ch].len() && reclaimed[ch][..] == released[ch][..reclaimed[ch].len()], "conn.reclaim", "reclaim order differs from release order: {}", d());
+        if c.final_reclaim {
+            ensure!(reclaimed[ch] == released[ch], "conn.reclaim", "released offsets were not handed back: {}", d());
+        }
+        for v in &accepted[ch] {
+            if !evicted[ch].contains(v) && !reclaimed[ch].contains(v) {
+                expect_used.push(*v);
+            }
+        }
+    }
+    // eviction takes the oldest: at the moment an offset is evicted nothing older may still be
+    // received later
+    for ch in 0..nch {
+        let mut evicted_so_far: Vec<u64> = vec![];
+        for e in &log {
+            match e {
+                Ev::SendEnd(_, c2, 1, Some(x), _) if *c2 as usize == ch => evicted_so_far.push(*x),
+                Ev::RecvEnd(c2, Ok(Some(v)), _) if *c2 as usize == ch => {
+                    if let Some(m) = evicted_so_far.iter().max() {
+                        ensure!(v > m, "conn.evicts_oldest", "channel {ch}: {v} received after the younger {m} was evicted: {}", detail(&log));
+                    }
+                }
+                _ => {}
+            }
+        }
+    }
+    expect_used.sort();
+    acquired.sort();
+    ensure!(acquired == expect_used, "conn.used_offsets", "acquire_used_offsets yields {acquired:?}, offsets not yet handed back are {expect_used:?}: {}", detail(&log));
+
+    obs.nontrivial = info.preempt_inside && boundary;
+    if info.preempt_inside {
+        obs.class("conn_preempted_inside_op");
+    }
+    if evicted.iter().any(|l| !l.is_empty()) {
+        obs.class("conn_with_eviction");
+    }
+    if log.iter().any(|e| matches!(e, Ev::RecvEnd(_, Err(()), _))) {
+        obs.class("conn_borrow_limit_hit");
+    }
+    if log[..concurrent_len].iter().any(|e| matches!(e, Ev::ReclaimEnd(_, Ok(Some(_))))) {
+        obs.class("conn_reclaimed_concurrently");
+    }
+    if info.stale_reads > 0 {
+        obs.class("conn_with_stale_read");
+    }
+    if !expect_used.is_empty() {
+        obs.class("conn_used_offsets_nonempty");
+    }
+    let peak = released.iter().zip(reclaimed.iter()).map(|(a, b)| a.len() as i64 - b.len() as i64).max().unwrap_or(0);
+    let _ = peak;
+    Ok(info)
+}
+
+fn ccase_shrinks(c: &CCase) -> Vec<CCase> {
+    let mut out = vec![];
+    for s in sched::shrink_schedule(&c.sched) {
+        out.push(CCase { sched: s, ..c.clone() });
+    }
+    for i in (0..c.script.len()).rev() {
+        let mut n = c.clone();
+        n.script.remove(i);
+        out.push(n);
+    }
+    for i in 0..c.script.len() {
+        if c.script[i].wait {
+            let mut n = c.clone();
+            n.script[i].wait = false;
+            out.push(n);
+        }
+    }
+    if c.channels > 1 {
+        out.push(CCase { channels: c.channels - 1, ..c.clone() });
+    }
+    if c.segments > 1 {
+        out.push(CCase { segments: 1, ..c.clone() });
+    }
+    out
+}
+
+fn exec_ccase(ctx: &mut Ctx, part: &str, c: &CCase) -> bool {
+    let key = vcore::rng::hash_str(&format!("{c:?}"));
+    let mut obs = Obs::default();
+    let r = Ctx::guarded(|| run_ccase(c, &mut obs).map(|_| ()));
+    ctx.record(part, key, &obs, || serde_json::to_value(c).unwrap());
+    if let Err(f) = r {
+        if ctx.is_open_finding(&f.signature) {
+            ctx.violation(part, &f, serde_json::to_value(c).unwrap());
+            return true;
+        }
+        let sig = f.signature.clone();
+        let min = vcore::shrink::greedy(
+            c.clone(),
+            ccase_shrinks,
+            |cand| matches!(Ctx::guarded(|| run_ccase(cand, &mut Obs::default()).map(|_| ())), Err(ff) if ff.signature == sig),
+            400,
+        );
+        let fin = Ctx::guarded(|| run_ccase(&min, &mut Obs::default()).map(|_| ())).err().unwrap_or(f);
+        ctx.violation(part, &fin, serde_json::to_value(&min).unwrap());
+        return false;
+    }
+    true
+}
+
+/// all merges of `a` (thread 0) and `b` (thread 1) that keep the order inside each list
+fn merges(a: &[COp], b: &[COp]) -> Vec<Vec<(u8, COp)>> {
+    if a.is_empty() {
+        return vec![b.iter().map(|o| (1u8, *o)).collect()];
+    }
+    if b.is_empty() {
+        return vec![a.iter().map(|o| (0u8, *o)).collect()];
+    }
+    let mut out = vec![];
+    for mut m in merges(&a[1..], b) {
+        m.insert(0, (0, a[0]));
+        out.push(m);
+    }
+    for mut m in merges(a, &b[1..]) {
+        m.insert(0, (1, b[0]));
+        out.push(m);
+    }
+    out
+}
+
+/// the small programs of the exhaustive part: k sends against m (receive, release) pairs,
+/// every merge order as reference interleaving, wait flags none / all / receiver only /
+/// sender only (duplicates of derived programs removed)
+fn small_scripts(k: usize, m: usize) -> Vec<Vec<Entry>> {
+    let a: Vec<COp> = (0..k).map(|_| COp::Send(0)).collect();
+    let b: Vec<COp> = (0..m).flat_map(|_| [COp::Recv(0), COp::Release(0, 0)]).collect();
+    let mut seen = std::collections::BTreeSet::new();
+    let mut out = vec![];
+    for mg in merges(&a, &b) {
+        for mode in 0..4u8 {
+            let script: Vec<Entry> = mg
+                .iter()
+                .map(|(t, op)| Entry { t: *t, op: *op, wait: match mode { 0 => false, 1 => true, 2 => *t == 1, _ => *t == 0 } })
+                .collect();
+            let probe = CCase { buffer: 1, borrow: 1, overflow: false, channels: 1, segments: 1, script: script.clone(), final_reclaim: false, sched: Schedule::default() };
+            if seen.insert(format!("{:?}", programs(&probe))) {
+                out.push(script);
+            }
+        }
+    }
+    out
+}
+
+fn random_script(rng: &mut vcore::rng::SplitMix, channels: u8, max_len: u64) -> Vec<Entry> {
+    let n = rng.range(2, max_len);
+    let mut v = vec![];
+    let mut t = 0u8;
+    for _ in 0..n {
+        // runs of the same thread with switches in between
+        if rng.chance(2, 5) {
+            t = 1 - t;
+        }
+        let ch = rng.below(channels as u64) as u8;
+        let op = if t == 0 {
+            if rng.chance(5, 6) { COp::Send(ch) } else { COp::Reclaim(ch) }
+        } else if rng.chance(1, 2) {
+            COp::Recv(ch)
+        } else {
+            COp::Release(ch, if rng.chance(3, 4) { 0 } else { rng.below(3) as u8 })
+        };
+        v.push(Entry { t, op, wait: rng.chance(1, 2) });
+    }
+    v
+}
+
+pub fn conn_parts(ctx: &mut Ctx) {
+    for part in ["conn.exhaustive", "conn.random", "conn.weak"] {
+        if let Some(c) = ctx.replay_case::<CCase>(part) {
+            exec_ccase(ctx, part, &c);
+            return;
+        }
+    }
+    if ctx.replay.is_some() {
+        return;
+    }
+    if ctx.part_enabled("conn.exhaustive") {
+        let bound = ctx.scale(2, 3);
+        let mut i = 0u64;
+        let mut ok = true;
+        // (k, m, full parameter grid?)
+        let shapes: Vec<(usize, usize, bool)> = if ctx.quick() {
+            vec![(1, 1, true), (2, 1, true), (1, 2, true), (2, 2, true), (3, 2, false), (3, 3, false)]
+        } else {
+            vec![(1, 1, true), (2, 1, true), (1, 2, true), (2, 2, true), (3, 2, false), (2, 3, false), (3, 3, false)]
+        };
+        'outer: for (k, m, grid) in shapes {
+            let params: Vec<(u8, u8, bool)> = if grid {
+                vec![(1, 1, false), (1, 1, true), (2, 1, false), (2, 1, true), (1, 2, false), (1, 2, true), (2, 2, false), (2, 2, true)]
+            } else {
+                vec![(1, 1, false), (1, 1, true)]
+            };
+            for script in small_scripts(k, m) {
+                for (buffer, borrow, overflow) in &params {
+                    i += 1;
+                    if !ctx.mine(i) {
+                        continue;
+                    }
+                    let base = CCase { buffer: *buffer, borrow: *borrow, overflow: *overflow, channels: 1, segments: 1, script: script.clone(), final_reclaim: vcore::rng::mix(i, 77) & 1 == 0, sched: Schedule::default() };
+                    let y = match run_ccase(&base, &mut Obs::default()) {
+                        Ok(info) => info.yields,
+                        Err(_) => {
+                            ok &= exec_ccase(ctx, "conn.exhaustive", &base);
+                            break 'outer;
+                        }
+                    };
+                    // thorough: three preemptions only for the programs with at most 45 yield points
+                    let b = if bound == 3 && y > 45 { 2 } else { bound };
+                    for l in sched::enumerate_preemptions(y + 2, 1, b) {
+                        let c = CCase { sched: Schedule { preempt: l.iter().map(|(a, _)| (*a, OTHER as u8)).collect(), ..Default::default() }, ..base.clone() };
+                        if !exec_ccase(ctx, "conn.exhaustive", &c) {
+                            ok = false;
+                            break 'outer;
+                        }
+                    }
+                }
+            }
+        }
+        if ok {
+            ctx.mark_exhaustive(format!("conn.exhaustive: all preemption lists with <= {bound} preemptions (3 only below 46 yield points) for k sends against m receive/release pairs, k,m <= 2 over buffer 1..2 x max-borrow 1..2 x overflow on/off and k<=3,m<=3 for buffer 1, max-borrow 1; every merge order as reference interleaving with wait flags none/all/receiver/sender"));
+        }
+    }
+    for (part, weak) in [("conn.random", false), ("conn.weak", true)] {
+        if !ctx.part_enabled(part) {
+            continue;
+        }
+        let total = if weak { ctx.scale(60_000u64, 1_500_000) } else { ctx.scale(200_000u64, 5_000_000) };
+        let n = ctx.share(total);
+        let mut rng = ctx.rng(part);
+        let maxp = ctx.scale(3, 5);
+        for _ in 0..n {
+            let channels = if rng.chance(1, 4) { 2 } else { 1 };
+            let script = random_script(&mut rng, channels, ctx.scale(14, 20));
+            let est = 4 + 9 * script.len() as u32;
+            let np = rng.range(0, maxp) as usize;
+            let preempt = sched::random_preemptions(&mut rng, est, 1, np).into_iter().map(|(y, _)| (y, OTHER as u8)).collect();
+            let stale = if weak { (0..rng.range(1, 12)).map(|_| if rng.chance(1, 2) { rng.range(1, 3) as u8 } else { 0 }).collect() } else { vec![] };
+            let c = CCase {
+                buffer: rng.range(1, 3) as u8,
+                borrow: rng.range(1, 3) as u8,
+                overflow: rng.chance(1, 2),
+                channels,
+                segments: if rng.chance(1, 4) { 2 } else { 1 },
+                script,
+                final_reclaim: rng.chance(1, 2),
+                sched: Schedule { preempt, stale, weak },
+            };
+            if !exec_ccase(ctx, part, &c) {
+                break;
+            }
+        }
+    }
+}
